@@ -40,6 +40,13 @@ type peek struct {
 
 var t0 = time.Unix(1_700_000_000, 0)
 
+// shift scales every fee value of the real transactions (and the base fee) by 2^shift: the order and
+// the effective tips scale with it, so the specification's small integers still decide the expected
+// result while the implementation computes on numbers far beyond 64 bits.
+var shift uint
+
+func scaled(v int64) *uint256.Int { return new(uint256.Int).Lsh(uint256.NewInt(uint64(v)), shift) }
+
 // build constructs the real iterator for a snapshot. Transaction identity (account, index) is
 // carried in the hash.
 func build(s snap) *txorder.TransactionsByPriceAndNonce {
@@ -55,15 +62,15 @@ func build(s snap) *txorder.TransactionsByPriceAndNonce {
 			txs[addr] = append(txs[addr], &txpool.LazyTransaction{
 				Hash:      h,
 				Time:      t0.Add(time.Duration(tx[2]) * time.Millisecond),
-				GasFeeCap: uint256.NewInt(uint64(tx[0])),
-				GasTipCap: uint256.NewInt(uint64(tx[1])),
+				GasFeeCap: scaled(tx[0]),
+				GasTipCap: scaled(tx[1]),
 				Gas:       21000,
 			})
 		}
 	}
 	var base *big.Int
 	if s.Base >= 0 {
-		base = big.NewInt(s.Base)
+		base = scaled(s.Base).ToBig()
 	}
 	return txorder.NewTransactionsByPriceAndNonce(types.LatestSignerForChainID(big.NewInt(1)), txs, base)
 }
@@ -79,6 +86,10 @@ func observe(it *txorder.TransactionsByPriceAndNonce) (peek, string) {
 	if it.Empty() {
 		return peek{}, "Peek returns a transaction but Empty() is true"
 	}
+	if low := new(uint256.Int).Lsh(new(uint256.Int).Rsh(fee, shift), shift); !low.Eq(fee) {
+		return peek{}, fmt.Sprintf("Peek returns fee %v, not a multiple of 2^%d", fee, shift)
+	}
+	fee = new(uint256.Int).Rsh(fee, shift)
 	if !fee.IsUint64() || fee.Uint64() > 1<<62 {
 		return peek{}, fmt.Sprintf("Peek returns fee %v", fee)
 	}
@@ -103,10 +114,20 @@ type step struct {
 
 // replay executes one behaviour on a fresh iterator; first is the expected Peek after construction.
 func replay(s snap, first peek, steps []step, sum *tl.Summary) bool {
+	ok := true
+	for _, sh := range []uint{0, 100, 222} {
+		shift = sh
+		ok = replayOnce(s, first, steps, sum) && ok
+	}
+	shift = 0
+	return ok
+}
+
+func replayOnce(s snap, first peek, steps []step, sum *tl.Summary) bool {
 	it := build(s)
 	got, msg := observe(it)
 	if msg != "" || got != first {
-		sum.Violate(fmt.Sprintf("after NewTransactionsByPriceAndNonce: implementation peeks %+v %s, specification %+v (snapshot %v)", got, msg, first, s),
+		sum.Violate(fmt.Sprintf("after NewTransactionsByPriceAndNonce (fees x 2^%d): implementation peeks %+v %s, specification %+v (snapshot %v)", shift, got, msg, first, s),
 			tl.M{"snap": s, "steps": []step{}, "got": got, "want": first})
 		return false
 	}
@@ -116,7 +137,7 @@ func replay(s snap, first peek, steps []step, sum *tl.Summary) bool {
 		sum.Count(st.Op)
 		got, msg = observe(it)
 		if msg != "" || got != st.Peek {
-			sum.Violate(fmt.Sprintf("after %v: implementation peeks %+v %s, specification %+v (snapshot %v)", opsOf(steps[:i+1]), got, msg, st.Peek, s),
+			sum.Violate(fmt.Sprintf("after %v (fees x 2^%d): implementation peeks %+v %s, specification %+v (snapshot %v)", opsOf(steps[:i+1]), shift, got, msg, st.Peek, s),
 				tl.M{"snap": s, "steps": steps[:i+1], "got": got, "want": st.Peek})
 			return false
 		}
@@ -308,6 +329,7 @@ func runRecord(path string, seed int64, ntraces, na, maxTx int, sum *tl.Summary)
 			}
 			s.Pending = append(s.Pending, list)
 		}
+		shift = []uint{0, 0, 70, 200}[r.Intn(4)]
 		it := build(s)
 		p, msg := observe(it)
 		if msg != "" {
